@@ -1065,6 +1065,7 @@ def run(ctx):
     seen = [set() for _ in specs]
     frontier = [[None] for _ in specs]
     closed = {}
+    witnesses = {}
     nops = [len(get_model(s).ops) for s in specs]
     per_level = []
     for depth in range(0, b['depth'] + 1):
@@ -1086,7 +1087,15 @@ def run(ctx):
             if len(r) == 2:
                 raise core.Inconclusive(f'{r[0]}: {r[1]}')
             part, mi, succ = r
-            parts[specs[mi]['family']].merge(part)
+            fam = specs[mi]['family']
+            # witnesses are chosen here by a total order (shortest, then smallest JSON), not by arrival order
+            for sig, (n, case, detail) in part.violations.items():
+                ent = witnesses.setdefault((fam, sig), [0, case, detail])
+                ent[0] += n
+                if (len(jkey(case)), jkey(case)) < (len(jkey(ent[1])), jkey(ent[1])):
+                    ent[1], ent[2] = case, detail
+            part.violations = {}
+            parts[fam].merge(part)
             found[mi] += succ
         new_total = 0
         for mi in range(len(specs)):
@@ -1100,6 +1109,8 @@ def run(ctx):
             frontier[mi] = nxt
             new_total += len(nxt)
         per_level.append(new_total)
+    for (fam, sig), ent in sorted(witnesses.items()):
+        parts[fam].violations[sig] = ent
     for fam, part in parts.items():
         part.states = sum(len(seen[mi]) for mi, s in enumerate(specs) if s['family'] == fam)
         if any(s['family'] == fam for s in specs):
